@@ -150,7 +150,9 @@ def run_case(spec):
         val = float(rng.choice([0.5, -1.25, 1e-6, 3.0]))
         tf = dict(p.terms_f)
         tx = dict(p.terms_x) if p.exact else None
-        one_sided = (not p.hermitian) and rng.random() < 0.5
+        one_sided = (not p.hermitian) and rng.random() < 0.6
+        if one_sided and rng.random() < 0.5:
+            i, j = j, i  # only a block BELOW the block diagonal is non-zero
         tf[z] = _set(tf[z], i, j, val, False)
         if not one_sided:
             tf[z] = _set(tf[z], j, i, val, False)
@@ -159,7 +161,7 @@ def run_case(spec):
             tx[z] = _set(tx[z], i, j, Fraction(val), True)
             if not one_sided:
                 tx[z] = _set(tx[z], j, i, Fraction(val), True)
-        variant = f"{'one-sided ' if one_sided else ''}{val}"
+        variant = f"{'one-sided ' + ('lower ' if i > j else 'upper ') if one_sided else ''}{val}"
         design = spec["design"] if spec["design"] != "vectors" else "indices"
         q = matprob.derive(p, terms_f=tf, terms_x=tx, design=design)
         _twin_is_fine(p, [], counters)
